@@ -119,6 +119,16 @@ func c19Cases(tier string) []c19Case {
 	for _, d := range []uint64{6, 18} {
 		out = append(out, c19Case{2, 1, 1, 0, d, []int64{10, 10, 10}, "hub", "ethereum", -1, false, 0, true, false})
 	}
+	// many validators: every bonded validator with a Minter address has its share, however many there are (the Minter
+	// multisig's own size limit is no reason to leave the smaller ones out of the split)
+	for _, n := range []int{32, 33, 40} {
+		eq, desc := make([]int64, n), make([]int64, n)
+		for i := range eq {
+			eq[i], desc[i] = 10, int64(n-i)
+		}
+		out = append(out, c19Case{2, 0, 1, 0, 18, eq, "hub", "ethereum", -1, false, 0, false, false},
+			c19Case{2, 0, 1, 0, 18, desc, "minter", "ethereum", -1, false, 0, false, false})
+	}
 	// commissions of a few units only
 	for _, amt := range []int64{100, 250, 1000} {
 		for _, pw := range [][]int64{{10, 10, 10}, {98, 1, 1}, {7}} {
